@@ -378,6 +378,39 @@ def softOutAll (s : S) : S := (idxs s).foldl softOut s
 /-- sReset with address "all": softResetIn over all peers, then softResetOut over all peers -/
 def softBothAll (s : S) : S := softOutAll (softInAll s)
 
+
+/-! ### per-destination, per-peer pieces (what the whole-speaker functions above do to ONE
+    destination of ONE peer; the theorems of Lemmas/SoftReset.lean are about these, and
+    Model/SoftResetWorld.lean builds the speaker out of them) -/
+
+/-- what one (possibly absent) outgoing path does to what the peer holds for its prefix -/
+def heldApplyP (g : Global) (t : PeerCfg) (h : Option Held) : Option P → Option Held
+  | none => h
+  | some p => if p.wd then none else some (heldOf g t p.r)
+
+/-- what propagateUpdateToNeighbors sends to one peer for one destination change -/
+def deltaForP (g : Global) (e : Pol) (t : PeerCfg) (oldL newL : List Cand) : Option P :=
+  match getChanges oldL newL with
+  | (some b, old) => sFilterpathP g e t b old
+  | (none, _) => none
+
+/-- what softResetOut / handleRouteRefresh emit for one destination toward one peer: the export
+    of the best path, or — when the filters refuse it and sentPaths has the destination — its
+    withdrawal -/
+def softOutFor (g : Global) (e : Pol) (t : PeerCfg) (l : List Cand) (sent : Bool) : List P :=
+  match l.head? with
+  | none => []
+  | some b =>
+    if b.nhInvalid then []
+    else
+      match sFilterpathP g e t ⟨b, false⟩ none with
+      | some p => [p]
+      | none => if sent then [⟨b, true⟩] else []
+
+def heldApplyList (g : Global) (t : PeerCfg) (h : Option Held) (ps : List P) : Option Held :=
+  ps.foldl (fun h p => heldApplyP g t h (some p)) h
+
+
 /-- The premise behind "a soft reset out / ROUTE-REFRESH / initial transfer of a peer is ONE
     step": getBestFromLocalCallback(peer, families, addEOR, routeRefresh, fn) takes the peer's
     routeRefreshInProgress WRITE lock iff `routeRefresh` is true, and the incremental fan-out
